@@ -11,6 +11,11 @@
            error class, set of tasks processed, tasks whose action ran,
            start order;
     each compared with the Lean model of the code as it is (`head`).
+      dodo: the same case written as a real dodo file found through -f / --file= / --dir / -k / DOIT_FILE / DOIT_SEEK_FILE,
+           `python -m doit` started as a subprocess from another directory (proj/sub, the root, work/): same observables
+           plus the working directory the actions saw;
+      run_tasks: doit.api.run_tasks(loader, {name: {}, ...}) (no command line: names are not filtered, errors are raised);
+    the command line of the cli/dodo tiers loses its name=value words before selection (Sel.stripVars / planCli);
 (P) the Lean predicate `DoitModel.Sel.monitor` (the statement: exit 3 and nothing processed when the selection does not
     resolve; else exit 0, processed set == closure of the *specified* selection -- with --single after dropping the task
     dependencies of the named tasks --, order clause) evaluated by the driver on the observations of the cli run; on the
@@ -28,7 +33,7 @@ META = {
     'property': 'C12',
     'lean_props': ['DoitModel.Props.C12'],
     'level': 'proof',
-    'budget': {'quick': 30, 'thorough': 420},
+    'budget': {'quick': 40, 'thorough': 480},
     'anchors': ['doit/control.py::TaskControl.__init__', 'doit/control.py::TaskControl.set_implicit_deps',
                 'doit/control.py::TaskControl.add_implicit_task_dep', 'doit/control.py::TaskControl._get_wild_tasks',
                 'doit/control.py::TaskControl._process_filter', 'doit/control.py::TaskControl._filter_tasks',
@@ -61,11 +66,18 @@ META = {
             'task names, names sharing prefixes, literal names made of glob metacharacters `[` `]` `?` (also in task_dep), '
             'params/pos_arg, uptodate tasks, wild-card/setup/calc/implicit deps, '
             'acyclic) x argv of names, group names, sub-task names, targets, patterns matching 0..n names, unknown '
-            'names (also ones made of format metacharacters `{}` `{0}` `%s` `%(x)s`), option tokens x default_tasks x '
+            'names, name=value words and the empty word, file names written ./x, absolute or as pathlib.Path (targets, '
+            'file_dep, command line) (also ones made of format metacharacters `{}` `{0}` `%s` `%(x)s`), option tokens x default_tasks x '
             '--single; plus all argv of length <= 3 over a 9-token alphabet on '
             'fixed 3-4 task sets; non-trivial = the selection has >= 2 entries, or uses a pattern/target/option, or '
             'is rejected; distinct = distinct canonical case',
-    'assumptions': ['patterns use only `*`, `?` and literal characters', 'task option tokens: short clusters, exact long '
+    'assumptions': ['file names are compared as written (a, ./a, absolute are different names for selection by target, '
+                    'implicit task_dep and duplicate targets); a pathlib.Path entry stands for str(path) (pathlib\'s '
+                    'normal form, computed by the harness with PurePosixPath)',
+                    'name=value words (not starting with `-`) on the command line are command-line variables and are '
+                    'taken out before selection, also where meant as a detached option value (documented feature; '
+                    'modelled as the code does: Sel.stripVars)',
+                    'patterns use only `*`, `?` and literal characters', 'task option tokens: short clusters, exact long '
                     'names (no unique-prefix abbreviations, no inverse options)',
                     'all actions succeed on a fresh DB; calc_dep tasks return no values (static graph)',
                     '--single on a group whose own task_dep lists more than its sub-tasks: every entry is treated like a '
@@ -84,14 +96,25 @@ def sig_repeated(w):
     return bool(w.get('reinit')) and bool(w.get('impl_matches_pinned'))
 
 
+def sig_empty_word(w):
+    """F-C12-empty-word-crash (fixed in /repo by 0ab6253; only a label in replays): the command line contains an empty
+    word and IndexError escaped DoitMain.run, as the pinned model (Sel.pinnedCliArgs) says"""
+    return bool(w.get('empty_word_crash'))
+
+
+SIGNATURES = {}
+
+
 # ----------------------------------------------------------------------------------------------
 
 def cli_eligible(case):
     if any(t.get('delayed') for t in case['tasks']):
         return False
-    if case['argv'] and case['argv'][0].startswith('-'):
-        return False
-    if any('=' in a for a in case['argv'][:1]):
+    # the first word that reaches the `run` command must not look like one of its own options
+    if case.get('entry') == 'run_tasks':
+        return True
+    rest = [a for a in case['argv'] if not (a and a[0] != '-' and '=' in a)]
+    if rest and rest[0].startswith('-'):
         return False
     return True
 
@@ -115,7 +138,12 @@ def evaluate(cases, workdir, want_cli=True):
     impl = []
     for case in cases:
         api = sellib.impl_control(case)
-        cli = sellib.impl_cli(case, workdir) if (want_cli and cli_eligible(case)) else None
+        if not (want_cli and cli_eligible(case)):
+            cli = None
+        elif case.get('layout'):
+            cli = sellib.impl_dodo(case, workdir)     # a real dodo file, `python -m doit` started somewhere else
+        else:
+            cli = sellib.impl_cli(case, workdir)
         impl.append((api, cli))
     reqs = [sellib.request(c, sellib.obs_for_monitor(cli) if cli else None) for c, (api, cli) in zip(cases, impl)]
     answers = common.drv_batch(reqs)
@@ -145,6 +173,8 @@ def evaluate(cases, workdir, want_cli=True):
                               'impl_matches_pinned': a == (m.get('pinned') or {}).get('sel')})
         # ---- cli
         if cli is not None:
+            # the command line loses its name=value words before selection (Sel.planCli)
+            head = m['cli']
             exp_exit = 0 if head['sel'][0] == 'ok' else 3
             cli_ok = True
             if cli['exit'] != exp_exit:
@@ -168,16 +198,20 @@ def evaluate(cases, workdir, want_cli=True):
                     cli_ok = False
             if cli['exit'] == 0 and exp_exit == 0:
                 # options / positional values seen by the actions of tasks named on the command line
-                for name, vals in m['pos']:
-                    if name in cli['kwargs'] and list(cli['kwargs'][name].get('pos') or []) != vals:
+                for name, vals in m['cli_pos']:
+                    if name in cli['kwargs'] and [sellib.unsub(v) for v in (cli['kwargs'][name].get('pos') or [])] != vals:
                         r['div'].append('cli: %s received pos=%s, model %s' % (name, cli['kwargs'][name].get('pos'), vals))
+            if cli.get('cwds') is not None and [c for c in cli['cwds'] if c != cli['expected_cwd']]:
+                r['div'].append('dodo: actions ran in %s, expected %s (layout %s)'
+                                % (cli['cwds'], cli['expected_cwd'], case.get('layout')))
             if cli_ok and exp_exit == 0 and m.get('chunked') is False:
                 r['div'].append('cli: the serial start order %s does not work the selection %s off one task after the '
                                 'other (abstraction chunkedB of the dispatcher)' % (cli['started'], head['sel'][1]))
             mon = m.get('monitor', [])
             if mon:
                 r['viol'].append({'tier': 'cli', 'failed': mon, 'impl': {k: cli[k] for k in ('exit', 'error', 'processed', 'started', 'ran')},
-                                  'expected': spec, 'reinit': reinit, 'impl_matches_head': cli_ok and api_head_ok,
+                                  'expected': head, 'reinit': reinit, 'impl_matches_head': cli_ok and api_head_ok,
+                                  'empty_word_crash': bool(m.get('pinned_cli_crash')) and cli['exit'] == ['exc', 'IndexError'],
                                   'impl_matches_pinned': api.get('sel') == (m.get('pinned') or {}).get('sel')})
     return res
 
@@ -189,7 +223,7 @@ def nontrivial(case, m):
     if len(sel[1]) >= 2:
         return True
     toks = list(case['argv']) or list(case.get('default') or [])
-    targets = [tg for t in sellib.flat_defs(case) for tg in (t[1].get('targets') or [])]
+    targets = [tg for t in sellib.flat_defs(case) for tg in sellib.mtargets(t[1])]
     return any(('*' in a) or a.startswith('-') or a in targets for a in toks)
 
 
@@ -197,7 +231,7 @@ def classify(case, m, st):
     toks = list(case['argv']) or list(case.get('default') or [])
     names = sellib.all_names(case)
     groups = [t['name'] for t in case['tasks'] if t.get('subs') is not None]
-    targets = [tg for t in sellib.flat_defs(case) for tg in (t[1].get('targets') or [])]
+    targets = [tg for t in sellib.flat_defs(case) for tg in sellib.mtargets(t[1])]
     st.count('ntasks:%d' % min(8, len(names)))
     st.count('argv_len:%d' % min(6, len(case['argv'])))
     st.count('source:%s' % ('argv' if case['argv'] else 'default_tasks' if case.get('default') is not None else 'all'))
@@ -220,8 +254,12 @@ def classify(case, m, st):
             st.count('arg:subtask' if ':' in a else 'arg:name')
         elif a in targets:
             st.count('arg:target')
+        elif a == '':
+            st.count('arg:empty-word')
         elif a.startswith('-'):
             st.count('arg:option-token')
+        elif '=' in a and case['argv']:
+            st.count('arg:name=value-word')
         else:
             st.count('arg:other(unknown/value)')
             if any(ch in a for ch in '{}%'):
@@ -235,6 +273,32 @@ def classify(case, m, st):
                 st.count('attr:' + key)
         if any('*' in x for x in d.get('task_dep', [])):
             st.count('attr:wild_dep')
+    def form(e):
+        if isinstance(e, dict):
+            return 'Path'
+        return 'abs' if e.startswith(sellib.ABS) else 'dot-slash' if e.startswith('./') else 'plain'
+
+    def fileid(e):
+        b = sellib.mstr(e)
+        b = b[len(sellib.ABS) + 1:] if b.startswith(sellib.ABS + '/') else b
+        while b.startswith('./') or b.startswith('/'):
+            b = b[1:] if b.startswith('/') else b[2:]
+        return b
+    decl = {}
+    for full, d, grp, is_group in sellib.flat_defs(case):
+        for e in (d.get('targets') or []) if not is_group else []:
+            if form(e) != 'plain':
+                st.count('target-form:' + form(e))
+            decl[fileid(e)] = sellib.mstr(e)
+    for full, d, grp, is_group in sellib.flat_defs(case):
+        for e in (d.get('file_dep') or []) if not is_group else []:
+            if form(e) == 'Path':
+                st.count('file_dep-form:Path')
+            if fileid(e) in decl and decl[fileid(e)] != sellib.mstr(e):
+                st.count('file_dep-spelled-differently-from-the-target')
+    for a in toks:
+        if a not in targets and fileid(a) in decl and a not in names:
+            st.count('arg:target-file-under-another-spelling')
     if 'spec' in m:
         st.count('spec:%s' % m['spec']['sel'][0])
         st.count('head:%s' % m['head']['sel'][0])
@@ -269,8 +333,16 @@ def shrink_candidates(case):
         yield dict(c, default=None)
     if c.get('single'):
         yield dict(c, single=False)
+    if c.get('entry'):
+        c_no = dict(c)
+        c_no.pop('entry')
+        yield c_no
     if c.get('reporter') is not None:
         yield dict(c, reporter=None)
+    if c.get('layout') not in (None, 'plain'):
+        yield dict(c, layout='plain')
+    if c.get('lopts_after'):
+        yield dict(c, lopts_after=False)
     for i, t in enumerate(c['tasks']):
         c2 = json.loads(json.dumps(c))
         t2 = c2['tasks'].pop(i)
@@ -339,7 +411,7 @@ def make_witness(case, r):
     v = v[0]
     w = {'case': case, 'rendered': sellib.render(case), 'tier': v['tier'], 'failed': v['failed'], 'impl': v['impl'],
          'expected': v['expected'], 'reinit': v['reinit'], 'impl_matches_head': v['impl_matches_head'],
-         'impl_matches_pinned': v.get('impl_matches_pinned'),
+         'impl_matches_pinned': v.get('impl_matches_pinned'), 'empty_word_crash': v.get('empty_word_crash', False),
          'model_of_code': r['model'].get('head')}
     return w
 
@@ -357,7 +429,13 @@ def process_batch(batch):
         classify(case, m, st)
         st.traces += 1 + (1 if r['cli'] is not None else 0)
         st.count('tier:api')
-        if r['cli'] is not None:
+        if r['cli'] is not None and case.get('layout'):
+            st.count('tier:dodo-file')
+            st.count('dodo-layout:%s%s' % (case['layout'], '(options after run)' if case.get('lopts_after') else ''))
+            st.count('cli-exit:%s' % r['cli']['exit'])
+        elif r['cli'] is not None and case.get('entry') == 'run_tasks':
+            st.count('tier:api-run_tasks')
+        elif r['cli'] is not None:
             st.count('tier:cli')
             st.count('cli-exit:%s' % r['cli']['exit'])
         if r['viol']:
@@ -446,6 +524,9 @@ def run(ctx):
     n_random = (600 if ctx.tier == 'quick' else 24000) * ctx.boost
     for i in range(n_random):
         cases.append(sellib.gen_case(random.Random(rng.getrandbits(64))))
+    n_dodo = (48 if ctx.tier == 'quick' else 300) * ctx.boost
+    for i in range(n_dodo):
+        cases.append(sellib.gen_dodo_case(random.Random(rng.getrandbits(64))))
     if ctx.tier == 'thorough':
         ex = exhaustive_cases(3, rng)
         ctx.extra['exhaustive_small_scope'] = {'task_sets': len(SMALL_SETS), 'alphabet': 9, 'max_argv_len': 3, 'reporters': ['recording', 'json', 'zero'],
@@ -478,7 +559,9 @@ def replay(ctx, data):
     print('names a task again:', bool(r['model'].get('reinit')))
     for v in r['viol']:
         print('property fails (%s tier): %s%s' % (v['tier'], v['failed'],
-                                                    '  [behaves like the code before dcfe778 (F-C12b)]' if sig_repeated(v) else ''))
+                                                    '  [behaves like the code before dcfe778 (F-C12b)]' if sig_repeated(v)
+                                                    else '  [behaves like the code before 0ab6253 (empty word)]'
+                                                    if sig_empty_word(v) else ''))
     for d in r['div']:
         print('divergence:', d)
     return not r['viol']
